@@ -3,7 +3,8 @@ facades, every failure placement and interleaving) model-checked; plans with fai
 patterns replayed step by step on the real mux.WorkerGrp with instrumented store callbacks and
 cache facades; store calls, cache updates, replies and quiescent cache/store observations
 validated by MuxCache_Trace (contract level: coherence, one-at-a-time in acceptance order,
-delete invalidates, add on a cached key is a duplicate that does not touch the store)."""
+delete invalidates, add on a cached key is a duplicate that does not touch the store, an abandoned
+call - caller context ended - is still applied exactly once and later calls get their own results)."""
 
 
 def run(ctx):
@@ -19,12 +20,12 @@ def run(ctx):
         ctx.tlc_mc(fam, "MuxCache", "MuxCache_MC_bug_del.cfg", workers=1, expect_violation="Coherent")
         ctx.tlc_mc(fam, "MuxCache", "MuxCache_MC_map.cfg", workers=16)
         ctx.tlc_mc(fam, "MuxCache", "MuxCache_MC_big.cfg", workers=16, timeout=3000, heap="16g")
-    pdir, plans = ctx.tlc_plans(fam, "MuxCache_Gen", "MuxCache_Gen.cfg", num=ctx.q(200, 2500), depth=48,
+    pdir, plans = ctx.tlc_plans(fam, "MuxCache_Gen", "MuxCache_Gen.cfg", num=ctx.q(160, 2500), depth=48,
                                 timeout=1200)
     binary = ctx.go_build("c15")
     steps_f, stress_f = ctx.path("steps.ndjson"), ctx.path("stress.ndjson")
     ctx.harness(binary, ["-plans", pdir, "-out", steps_f, "-stress", stress_f, "-seed", ctx.seed,
-                         "-rand", ctx.q(150, 4000), "-nstress", ctx.q(25, 600)],
+                         "-rand", ctx.q(130, 4000), "-nstress", ctx.q(25, 600)],
                 traces=[steps_f, stress_f])
     steps = ctx.load_traces(steps_f)
     stress = ctx.load_traces(stress_f)
@@ -41,11 +42,13 @@ def run(ctx):
         "hold a handler inside an operation",
         "serial (step-by-step) runs: submission order is acceptance order; stress runs: only "
         "real-time precedence is used",
-        "context cancellation of callers and Stop() during traffic are not exercised",
+        "a caller whose context ends returns at once; its operation stays accepted and is applied by "
+        "the worker as if the caller still waited (what the unchanged code does); Stop() during "
+        "traffic is not exercised",
     ]
     return ctx.finish(
         rule="plans = TLC simulation of MuxCache.tla (3 keys, 1..3 workers, map/LRU, 16 operations with "
-             "failure and gate patterns incl. a gate before the handler's cache Set/Delete, distinct by content) + "
+             "failure / gate patterns and cancellations of outstanding calls incl. a gate before the handler's cache Set/Delete, distinct by content) + "
              "seeded random plans (1..6 keys, 11 key schemes incl. extreme hash values and schemes in which "
              "distinct keys have equal HashedInt(): mixed wrapper types, CRC-32 collisions, constant hash; workers 1,2,3,5,8,127, queue depth 1,2,4,8192, LRU "
              "capacity 1..100, sized values, built-in and instrumented facades) + free-running stress "
